@@ -774,6 +774,10 @@ class _State:
                 self.write(e, ov, f"`out=` target of self.{f.attr}", norm(out_kw))
                 return join(ov, fresh(e))
             return fresh(e)
+        # dynamic dispatch over every Operation's backward_var (worst case supplied by the rule)
+        if isinstance(f, ast.Attribute) and f.attr == "backward_var" and self.I.dynamic_backward_var is not None \
+                and isinstance(f.value, ast.Name) and ("SELF", SAME) in env.get(f.value.id, OTHER).origins:
+            return self._instantiate(self.I.dynamic_backward_var, {"grad": args[0] if args else UNKNOWN})
         # repo callee
         r = self.fx.resolve_call(self.fi, e)
         if isinstance(r, FunctionInfo):
